@@ -160,10 +160,35 @@ def search(chk, broken):
             t = rng.choice(ubd[d])
             rng.choice([lambda: q.convert(t), lambda: q << t, lambda: t(q), lambda: str(q), lambda: repr(q), lambda: hash(q),
                         lambda: q == 1.0, lambda: q < t(2.0), lambda: q >> t, lambda: pbc.PreferredUnits.distance(q) if d == 'Distance' else None])()
+        # ... and handing the quantity to the library: every constructor / call that accepts a quantity of this dimension receives the
+        # caller's own object (PreferredUnits.<slot>(q) returns q itself) and must leave its magnitude alone
+        handed = ''
+        if rng.random() < 0.6:
+            U = pbc.Unit
+            dm0 = pbc.DragModel(0.3, pbc.TableG7)
+            sinks = {
+                'Angular': [lambda: pbc.Wind(U.MPS(3), q, U.Meter(100)), lambda: pbc.Weapon(U.Inch(2), 12, q),
+                            lambda: pbc.Shot(pbc.Weapon(), pbc.Ammo(dm0, U.MPS(800)), look_angle=q),
+                            lambda: pbc.Shot(pbc.Weapon(), pbc.Ammo(dm0, U.MPS(800)), relative_angle=q, cant_angle=q),
+                            lambda: pbc.Sight('FFP', None, abs(q.raw_value) and type(q)(abs(q.unit_value) + 0.1, q.units), U.Mil(0.1))],
+                'Distance': [lambda: pbc.Wind(U.MPS(3), U.Degree(90), q), lambda: pbc.Weapon(q, q), lambda: pbc.Atmo(altitude=q),
+                             lambda: pbc.DragModel(0.3, pbc.TableG7, U.Grain(150), q, q)],
+                'Velocity': [lambda: pbc.Wind(q, U.Degree(90)), lambda: pbc.Ammo(dm0, q), lambda: pbc.BCPoint(0.3, V=q)],
+                'Temperature': [lambda: pbc.Atmo(temperature=q), lambda: pbc.Ammo(dm0, U.MPS(800), q), lambda: pbc.Atmo(powder_t=q)],
+                'Pressure': [lambda: pbc.Atmo(pressure=q)],
+                'Weight': [lambda: pbc.DragModel(0.3, pbc.TableG7, q, U.Inch(0.3), U.Inch(1.2))],
+                'Energy': [],
+            }.get(d, [])
+            for sink in rng.sample(sinks, min(len(sinks), 2)):
+                try:
+                    sink()
+                    handed = ' and being passed to library constructors'
+                except Exception:  # noqa  (a value the constructor rejects: still must not touch the quantity)
+                    handed = ' and being passed to library constructors'
         evals += 1
         after = {t: q.get_in(t) for t in ubd[d]}
         if before != after or q.raw_value != raw0:
-            chk.failures.append(Failure('magnitude-changed', f'{d} {u.name}({x}) changed after a history of conversions',
+            chk.failures.append(Failure('magnitude-changed' + (':handed-to-library' if handed else ''), f'{d} {u.name}({x}) changed after a history of conversions{handed}',
                                         {'op': 'history', 'before': {k.name: v for k, v in before.items()}, 'after': {k.name: v for k, v in after.items()}}))
         # equality / ordering by magnitude, hash law
         r = v(q >> v)
